@@ -473,6 +473,12 @@ pub fn run(ctx: &Ctx) -> Outcome {
                 if r.is_panic() {
                     acc.violate(Violation::new("C20", "panic", c.pattern, t, from, "captures_from_pos", "a value or Err".into(), r.show()));
                 }
+                // commit discards exactly the alternatives created since ITS group was entered:
+                // every EndAtomic must find the entry of its own BeginAtomic (outside finding FJ,
+                // whose leaked entry comes from a conditional)
+                if h.aux_mismatch > 0 && !c.node.has_cond() {
+                    acc.violate(Violation::new("C20", "aux-pairing", c.pattern, t, from, "captures_from_pos", "every EndAtomic pops the entry pushed by its own BeginAtomic".into(), format!("{} EndAtomic instruction(s) consumed an entry pushed by another BeginAtomic", h.aux_mismatch)));
+                }
             }
         }
     });
@@ -480,7 +486,7 @@ pub fn run(ctx: &Ctx) -> Outcome {
     let mut out = Outcome::new(acc);
     out.distinct_nontrivial = states;
     out.exhaustive = true;
-    out.rule = format!("(1) all valid sequences of up to {} operations {{create branch, abandon branch, write slot (3 slots x 3 values), enter atomic, commit atomic, raw push/pop on the auxiliary stack}} applied through hook H2 to the real State and to a model that stores a full copy of (slots, auxiliary stack) per branch; after every operation all slots, the auxiliary stack and the branch count are compared and abandon must return the created (pc, ix); two consecutive writes to one slot are represented by the second; plus seeded random sequences of 50-300 (thorough: also 1000) operations with the lock-step shadow on, unwound to the bottom - half of them over 3 slots, half over a wide state of 6 / 12 / 24 slots and 5 values (60% writes, so one branch carries long runs of undo records). distinct_nontrivial = distinct model states visited. (2) program-level: lock-step shadow (hook H3) during real VM runs of {} committing-context products and random trees x all texts up to length 3 x every offset.", ctx.tier.pick(7, 9), patterns.len());
+    out.rule = format!("(1) all valid sequences of up to {} operations {{create branch, abandon branch, write slot (3 slots x 3 values), enter atomic, commit atomic, raw push/pop on the auxiliary stack}} applied through hook H2 to the real State and to a model that stores a full copy of (slots, auxiliary stack) per branch; after every operation all slots, the auxiliary stack and the branch count are compared and abandon must return the created (pc, ix); two consecutive writes to one slot are represented by the second; plus seeded random sequences of 50-300 (thorough: also 1000) operations with the lock-step shadow on, unwound to the bottom - half of them over 3 slots, half over a wide state of 6 / 12 / 24 slots and 5 values (60% writes, so one branch carries long runs of undo records). distinct_nontrivial = distinct model states visited. (2) program-level: lock-step shadow (hook H3) and BeginAtomic / EndAtomic pairing on the auxiliary stack during real VM runs of {} committing-context products and random trees x all texts up to length 3 x every offset.", ctx.tier.pick(7, 9), patterns.len());
     out.assumptions = vec!["validity follows VM discipline: abandon only with a branch, commit only on an entry pushed by enter-atomic, raw pop only on a raw entry".into()];
     let (sc, cuts, cm, css) = (out.acc.hook.shadow_checks, out.acc.hook.cuts, out.acc.hook.cuts_multi, out.acc.hook.cuts_same_slot);
     let mut ex = extra;
